@@ -490,6 +490,13 @@ func (e *kvElection) becomeFollower() {
 	e.mu.Lock()
 	defer e.mu.Unlock()
 
+	// A stopped election stays stopped: goroutines that were still running
+	// when Stop/StopWithContext returned must not move it back to FOLLOWER
+	// or restart the watcher.
+	if s, ok := e.state.Load().(string); ok && s == StateStopped && !e.isLeader.Load() {
+		return
+	}
+
 	fromState := StateInit
 	if s := e.state.Load(); s != nil {
 		if str, ok := s.(string); ok {
@@ -518,7 +525,7 @@ func (e *kvElection) becomeFollower() {
 		)...,
 	)
 
-	if e.ctx != nil && !e.watcherRunning.Load() {
+	if e.ctx != nil && e.ctx.Err() == nil && !e.watcherRunning.Load() {
 		e.watcherRunning.Store(true)
 		e.wg.Add(1)
 		go func() {
